@@ -547,6 +547,22 @@ pub fn check_table(ctx: &Ctx, t: &Table) -> Result<Facts, Fail> {
             .map_err(|e| lib_err(st, "write_records-failed", &e))?;
     }
     let mut bytes1 = cur.into_inner();
+    // the same table written over the start of a sink that already holds a longer file
+    {
+        let mut cur = Cursor::new(vec![0xEEu8; bytes1.len() + 700]);
+        let r = {
+            let mut wtr = if t.writer_explicit_schema { DbcWriter::new(&mut cur).with_schema(crate_schema(t)) } else { DbcWriter::new(&mut cur) };
+            wtr.write_records(&rs0)
+        };
+        let pos = cur.position() as usize;
+        let buf = cur.into_inner();
+        if r.is_err() || pos != bytes1.len() || buf[..pos.min(buf.len())] != bytes1[..] {
+            return Err(Fail::new(
+                format!("{st}:write-depends-on-what-the-sink-held"),
+                format!("write_records into a sink holding {} older bytes leaves the stream at {pos} / differs from the {}-byte file written into an empty sink", bytes1.len() + 700, bytes1.len()),
+            ));
+        }
+    }
 
     // E1. size and header, judged without the library
     let h1 = dbcenc::read_header(&bytes1).map_err(|e| Fail::new(format!("{st}:bad-header"), e))?;
